@@ -67,6 +67,9 @@ type ijCase struct {
 	// TargetsFirst: the assignment reaches the injector before the configuration does (a sidecar restarted without
 	// --config.file loads its stored assignment first and gets the configuration from the coordinator afterwards)
 	TargetsFirst bool
+	// Tricky: a plain scalar that a generic YAML decoder re-types (octal, float, bool, null, hex): used as a label value
+	// in the sections the injector copies; Prometheus reads it as the string it is written as
+	Tricky string
 }
 
 func ijAuthYAML(ind, auth, user, secret string) string {
@@ -89,6 +92,9 @@ func (c *ijCase) yaml() string {
 		sb.WriteString("global:\n  scrape_interval: 20s\n  scrape_timeout: 5s\n")
 		if c.External {
 			sb.WriteString("  external_labels:\n    replica: r0" + c.ExtValue + "\n")
+			if c.Tricky != "" {
+				sb.WriteString("    oddly: " + c.Tricky + "\n")
+			}
 		}
 	}
 	if len(c.Rules) > 0 {
@@ -432,6 +438,7 @@ func globalPart(text string) string {
 func injectGen(r *rand.Rand, idx int, thorough bool) interface{} {
 	c := injectGen1(r, idx, thorough)
 	c.TargetsFirst = idx%3 == 1
+	c.Tricky = []string{"", "0755", "1.10", "yes", "1e3", "0x1F", "~", "007", "+1", "on", "2021-01-01", "", "0o17", "1_000", ".5", "No"}[idx%16]
 	// history before: fresh configurations, or near-copies of the final one that differ only in the external labels,
 	// in one secret outside the jobs, or in the assignment
 	for k := 0; k < r.Intn(3); k++ {
